@@ -328,6 +328,8 @@ class Typer:
                 return Tup(a.elems + b.elems)
             if isinstance(a, Shape) and isinstance(b, Tup) and isinstance(e.op, ast.Add):
                 return Tup([Dim(l) for l in a.labels] + b.elems)
+            if isinstance(a, Tup) and isinstance(b, Shape) and isinstance(e.op, ast.Add):
+                return Tup(a.elems + [Dim(l) for l in b.labels])
             if isinstance(a, Dim) and isinstance(b, Dim) and isinstance(e.op, ast.Mult):
                 return Dim('{' + ','.join(sorted([a.label, b.label])) + '}')
             if isinstance(a, (Dim, Idx)) and isinstance(b, (Dim, Idx, Scal)) or isinstance(b, (Dim, Idx)) and isinstance(a, Scal):
@@ -469,6 +471,11 @@ class Typer:
                 return v.elems[k]
             return TOP
         if not isinstance(v, Arr):
+            if v is TOP and isinstance(e.value, ast.Name) and e.value.id not in self.env and not isinstance(e.slice, (ast.Tuple, ast.Slice)) \
+                    and self.func is not None and e.value.id in self.func.mod.assigns:
+                # lookup in a module-level (1-D) table: the result is laid out like the index array
+                iv = self.ev(e.slice)
+                return Arr(iv.labels) if isinstance(iv, Arr) else TOP
             return TOP
         items = list(e.slice.elts) if isinstance(e.slice, ast.Tuple) else [e.slice]
         labels = list(v.labels)
@@ -627,8 +634,8 @@ class Typer:
             if f.id in self.env and False:
                 return TOP
         # array methods
-        if isinstance(f, ast.Attribute) and not (isinstance(f.value, ast.Name) and f.value.id == 'self'
-                                                 and self.cls is not None and self.prog.resolve_method(self.cls, f.attr) is not None):
+        if isinstance(f, ast.Attribute) and not (d and d.startswith('scared.')) and not (
+                isinstance(f.value, ast.Name) and f.value.id == 'self' and self.cls is not None and self.prog.resolve_method(self.cls, f.attr) is not None):
             v = self.ev(f.value)
             m = f.attr
             if isinstance(v, Arr):
@@ -644,6 +651,11 @@ class Typer:
                     return self.reshape(e, v)
                 if m == 'transpose' and not e.args:
                     return Arr(v.labels[::-1], elem=v.elem)
+            elif m == 'reshape' and len(e.args) == 1:
+                # restore-the-remembered-shape idiom: x.reshape(<array>.shape) is laid out like that array
+                t = self.ev(e.args[0])
+                if isinstance(t, Shape) and all(known(l) for l in t.labels):
+                    return Arr(t.labels)
             return TOP
         # repository functions / methods: inline
         callee = None
@@ -701,6 +713,8 @@ class Typer:
         t = self.ev(e.args[0]) if len(e.args) == 1 else Tup([self.ev(a) for a in e.args])
         tgt = self.shape_labels(t)
         if tgt is None:
+            return TOP
+        if not isinstance(v, Arr):
             return TOP
         flat = []
         for l in v.labels:
